@@ -8,19 +8,42 @@ Order of the dynamic part:
   2. T2 stack geometry: harness/wb_stack.c (real ULTs through the public API with a malloc/free
      ledger linked in by --wrap) vs Lean Model.StackGeom.
   3. a few memory-pool configurations through the API (differential smoke).
+  4. T1 + T3 who uses a local pool: sc_units traces vs Model.MemOwner.
+  5. T1 + T3 the GLOBAL pool under concurrent callers and its tear-down: harness/sc_mempool.c (white box, 2-4 pthreads under
+     the controlled scheduler, tiny buckets / pages, injected page-allocation failures, ledger of pages through the
+     program's own posix_memalign / free) projected by vlib/t3_mempool.py onto Model.MemPoolConc (`driver mempoolconc`);
+     native monitors: no block handed out twice, every page obtained released exactly once by the end of
+     ABTI_mem_pool_destroy_global_pool, quiescent audit of the global pool.
 """
 import collections, json, os, subprocess
 from vlib import common as C
 from vlib import diff as D
 
 ASSUMPTIONS = [
-    "mem pool modelled sequentially: each ABTI_mem_pool_alloc/free/init_local/destroy_local (with the take/return "
-    "bucket calls inside) is one atomic step; in C a local pool is used by one execution stream at a time (or under "
-    "mem_pool_*_lock) — this usage discipline is Model.MemOwner (theorems local_pool_used_by_owner / local_pool_single_user) "
-    "and is validated on every controlled-scheduler trace of the work-unit scenarios (hook events 80/81, monitor in "
-    "harness/vs_abt.c: joins and frees by ULTs that block and come back on another stream, migration, stream create/join); "
-    "partial_bucket is under partial_bucket_lock; the two ABTI_sync_lifo are replaced by their "
-    "sequential specification, justified by lifo_linearizable (Model.SyncLifo, interleaving model of the 128-bit-CAS branch)",
+    "mem pool, two models: (a) Model.MemPool, pointer level (p_next / num_headers chains, byte geometry of the carving), "
+    "sequential: each ABTI_mem_pool_alloc/free/init_local/destroy_local with the take/return bucket calls inside is one atomic "
+    "step; (b) Model.MemPoolConc, list level (a bucket is the list of its headers, a page its number of carved slots), "
+    "concurrent: any number of callers interleaved at every atomic step of take_bucket (pop of bucket_lifo, pop of "
+    "mem_page_lifo, ABTU_alloc_largepage succeeding or failing, carve + push on mem_page_lifo / the empty-page list), "
+    "return_bucket, return_partial_bucket (lock, push of a completed bucket, unlock), plus the steps of "
+    "destroy_global_pool; (b) is what covers several callers inside the global pool at once and the tear-down, (a) the chain "
+    "and count fields; both are tied to the same C functions (T1) and (b) is validated on every controlled-scheduler trace of "
+    "sc_mempool, including the real chains of the local pools, partial_bucket and both LIFOs",
+    "a LOCAL pool is used by one execution stream at a time (or under mem_pool_*_lock): this usage discipline is Model.MemOwner "
+    "(theorems local_pool_used_by_owner / local_pool_single_user), validated on every controlled-scheduler trace of the "
+    "work-unit scenarios (hook events 80/81, monitor in harness/vs_abt.c: joins and frees by ULTs that block and come back on "
+    "another stream, migration, stream create/join); in Model.MemPoolConc it is the identification actor = local pool",
+    "in both pool models the two ABTI_sync_lifo are their sequential specification (each push/pop one step at its "
+    "linearization point), justified by lifo_linearizable (Model.SyncLifo, interleaving model of the 128-bit-CAS branch); "
+    "p_mem_page_empty is a push-only CAS-retry list, one step at the successful CAS; in Model.MemPoolConc the merge inside "
+    "return_partial_bucket is placed at the lock acquisition (nobody else reads or writes partial_bucket until the release)",
+    "Model.MemPoolConc: ABTI_mem_pool_destroy_global_pool runs when every local pool has been destroyed and nobody is inside "
+    "the pool (its documented precondition; ABTI_mem_finalize_global is called by ABT_finalize after every stream is gone); "
+    "pages are identified by their order of allocation (distinct regions: allocator contract)",
+    "T3 sc_mempool: under vsched plain statements execute atomically with the preceding atomic operation of their thread; "
+    "the outcome of a tagged-pointer CAS is computed by the scenario right before it executes (pointer and tag still what the "
+    "thread loaded; x86 cmpxchg16b does not fail spuriously) and every projected event is cross-checked against the real "
+    "structures (snapshots); lp type MALLOC only; the page ledger sits in the program's own posix_memalign / free",
     "ABTI_sync_lifo tag is an unbounded natural (the 64-bit tag wraps after 2^64 successful operations)",
     "pages returned by ABTU_alloc_largepage are pairwise disjoint, page_size bytes long and 64-byte aligned "
     "(posix_memalign / mmap contract); posix_memalign blocks are disjoint from each other and from user stacks",
@@ -498,6 +521,82 @@ def t3_memowner(res, tier, broken):
                 sizes={"quick": (12, 3), "thorough": (150, 8), "search": (150, 6)})
 
 
+# ----------------------------------------------------------------------------------------------
+# 5. T1 + T3: the global pool under concurrent callers, and its tear-down (Model.MemPoolConc)
+# ----------------------------------------------------------------------------------------------
+T1_CONC = [("mem/mem_pool.c", f) for f in [
+    "ABTI_mem_pool_init_global_pool", "ABTI_mem_pool_destroy_global_pool", "mem_pool_lifo_elem_to_page",
+    "mem_pool_lifo_elem_to_header", "mem_pool_return_partial_bucket", "protect_memory", "ABTI_mem_pool_take_bucket",
+    "ABTI_mem_pool_return_bucket", "ABTI_mem_pool_init_local_pool", "ABTI_mem_pool_destroy_local_pool", "ABTI_mem_pool_alloc",
+    "ABTI_mem_pool_free", "ABTI_sync_lifo_init", "ABTI_sync_lifo_destroy", "ABTI_sync_lifo_push_unsafe",
+    "ABTI_sync_lifo_pop_unsafe", "ABTI_sync_lifo_push", "ABTI_sync_lifo_pop", "ABTD_spinlock_acquire", "ABTD_spinlock_release",
+    "ABTD_spinlock_clear"]] + [("util/largepage.c", f) for f in ["ABTU_alloc_largepage", "ABTU_free_largepage"]] + [
+    ("mem/malloc.c", f) for f in ["ABTI_mem_init", "ABTI_mem_finalize"]]
+
+
+def mempool_conc_params(rng):
+    """nthreads, per_bucket, slots per page, header_size, header_offset, slack, rounds, fail%"""
+    nthr = rng.choice([2, 2, 3, 3, 4])
+    per = rng.choice([1, 2, 2, 3, 3, 4])
+    slots = rng.choice([1, 2, 3, 3, 4, 5, 5, 7, 9])
+    hs = rng.choice([16, 32, 48, 64])
+    ho = rng.choice([0, 0, hs - 16])
+    slack = rng.choice([0, 0, 8, hs - 8])
+    rounds = 2 + rng.below(6)
+    fail = rng.choice([0, 0, 0, 10, 25, 40])
+    return [nthr, per, slots, hs, ho, slack, rounds, fail]
+
+
+class _Cov:
+    """collects the coverage of one vs.campaign separately (its keys would overwrite those of the sc_units campaign)"""
+
+    def __init__(self, res):
+        self.res, self.seed, self.cov = res, res.seed, {}
+
+    def add_cov(self, **kw):
+        self.cov.update(kw)
+
+    def violation(self, *a, **kw):
+        return self.res.violation(*a, **kw)
+
+    def sample(self, s, cap=6):
+        return self.res.sample(s, cap=8)
+
+
+def t3_mempoolconc(res, tier, broken):
+    from vlib import t1, vs, t3_mempool
+    n, tb = t1.check(T1_CONC)
+    for b in tb:
+        broken.append({"kind": "T1-skeleton", **b})
+    teardown = collections.Counter()
+    maxlifo = [0]
+    fails = [0]
+
+    def validate(lg, params):
+        r = t3_mempool.validate(lg, params)
+        st = t3_mempool.validate.last_stats
+        if st.get("lifoAtDestroy") is not None:
+            teardown[min(st["lifoAtDestroy"], 2)] += 1
+        maxlifo[0] = max(maxlifo[0], st.get("maxPageLifo", 0))
+        fails[0] += st.get("allocfail", 0)
+        return r
+
+    cov = _Cov(res)
+    vs.campaign(cov, broken, tier, "C15", "sc_mempool", ["sc_mempool.c"], mempool_conc_params, validate,
+                sizes={"quick": (24, 4), "thorough": (400, 8), "search": (150, 6)},
+                reject_is_failure=vs.protocol_reject_is_failure)
+    c = cov.cov
+    res.add_cov(mempoolconc={
+        "t1_functions": n, "t1_broken": len(tb), "programs_and_schedules": c.get("programs_and_schedules"), "runs": c.get("runs"),
+        "outcomes": c.get("outcomes"), "traces_validated_against_impl": c.get("traces_validated_against_impl"),
+        "projected_events": c.get("projected_events"), "model_transitions_exercised": c.get("model_transitions_exercised"),
+        "model_transitions": c.get("model_transitions"),
+        "teardown_runs_by_pages_on_mem_page_lifo": {"0": teardown[0], "1": teardown[1], ">=2": teardown[2]},
+        "max_pages_on_mem_page_lifo": maxlifo[0], "injected_page_allocation_failures": fails[0]})
+    res.add_cov(t1_functions=n, t1_broken=len(tb), traces_validated_against_impl=c.get("traces_validated_against_impl") or 0,
+                projected_events=c.get("projected_events") or 0, runs=c.get("runs") or 0)
+
+
 def run(res, tier, broken):
     run_corpus(res)
     try:
@@ -507,6 +606,7 @@ def run(res, tier, broken):
     finally:
         drop_private_driver()
     t3_memowner(res, tier, broken)
+    t3_mempoolconc(res, tier, broken)
 
 
 def replay(res, path):
@@ -518,6 +618,12 @@ def replay(res, path):
 
 def _replay(res, path):
     rep = json.load(open(path))
+    if rep.get("scenario") == "sc_mempool":
+        from vlib import vs, t3_mempool
+        return vs.replay("sc_mempool", ["sc_mempool.c"], path, t3_mempool.validate)
+    if rep.get("scenario") == "sc_units":
+        from vlib import vs
+        return vs.replay("sc_units", ["sc_units.c"], path, validate_memowner)
     if "corpus" in rep:
         exe = C.cc_harness("corpus_" + rep["corpus"].rsplit(".", 1)[0], [os.path.join(C.VERIF, "corpus", "findings", rep["corpus"])], "plain")
         p = subprocess.run([exe] + rep.get("argv", []), stdout=subprocess.PIPE, stderr=subprocess.STDOUT)
